@@ -6,6 +6,8 @@
 //!   c02.merge.random       random tables / sections / subsection splittings → `XRefTable::add_entries_from`
 //!   c02.merge.outside      incoming `Promised`/`Invalid` entries (never produced by a reader; drift only)
 //!   c02.file               generated multi-revision files → `read_xref_table_and_trailer` + `resolve`
+//!   c02.xrefstm[.outside] single cross-reference streams with arbitrary /W, /Index and row data →
+//!                          `read_xref_table_and_trailer` (in-domain: conforming rows; outside: garbage)
 //! Oracle (implementation against the property itself):
 //!   c02.latest             same files: every object number resolves to the value written by the newest
 //!                          revision mentioning it / FreeObject / NullRef / Unspecified; trailer = newest
@@ -392,6 +394,101 @@ fn file_level(driver: &Driver, seed: u64, from: u64, to: u64) -> (Stream, Oracle
     (st, or)
 }
 
+/// One cross-reference stream with the given parameters as a complete file; the table the library
+/// builds from it is compared with the model's `parseSections` + `mergeAll`.
+fn xrefstm_file(size: u64, w: &[u64], index: &[(u64, u64)], data: &[u8]) -> Vec<u8> {
+    let mut out = b"%PDF-1.7\n".to_vec();
+    let off = out.len();
+    let wtxt: Vec<String> = w.iter().map(|x| x.to_string()).collect();
+    let itxt: Vec<String> = index.iter().map(|(a, b)| format!("{} {}", a, b)).collect();
+    let dict = format!("/Type /XRef /Size {} /W [{}] /Index [{}]", size, wtxt.join(" "), itxt.join(" "));
+    out.extend_from_slice(b"1 0 obj\n");
+    out.extend_from_slice(&stream_body(&dict, data));
+    out.extend_from_slice(format!("\nendobj\nstartxref\n{}\n%%EOF\n", off).as_bytes());
+    out
+}
+
+fn be(n: u64, w: usize) -> Vec<u8> {
+    n.to_be_bytes()[8 - w..].to_vec()
+}
+
+fn xrefstm(driver: &Driver, seed: u64, n: u64, outside: bool) -> Stream {
+    use pdf::backend::Backend;
+    let name = if outside { "c02.xrefstm.outside" } else { "c02.xrefstm" };
+    let mut st = Stream::new(name, !outside);
+    let mut reqs = vec![];
+    let mut imps = vec![];
+    for case in 0..n {
+        let mut rng = Rng::derive(seed, name, case);
+        let size = 1 + rng.below(14);
+        let allow = rng.chance(1, 2);
+        let (w, index, data): (Vec<u64>, Vec<(u64, u64)>, Vec<u8>);
+        if !outside {
+            // conforming writer: widths that fit, type field omitted only if all entries are in use
+            let nsub = 1 + rng.usize(3);
+            let mut subs: Vec<(u64, Vec<XRef>)> = vec![];
+            for _ in 0..nsub {
+                let first = rng.below(size + 2);
+                let len = rng.usize(5);
+                subs.push((first, (0..len).map(|_| rand_entry(&mut rng, false)).collect()));
+            }
+            let all_raw = subs.iter().all(|s| s.1.iter().all(|e| matches!(e, XRef::Raw { .. })));
+            let fields = |e: &XRef| match *e {
+                XRef::Free { next_obj_nr, gen_nr } => (0u64, next_obj_nr, gen_nr),
+                XRef::Raw { pos, gen_nr } => (1, pos as u64, gen_nr),
+                XRef::Stream { stream_id, index } => (2, stream_id, index as u64),
+                _ => unreachable!(),
+            };
+            let max1 = subs.iter().flat_map(|s| s.1.iter()).map(|e| fields(e).1).max().unwrap_or(0);
+            let max2 = subs.iter().flat_map(|s| s.1.iter()).map(|e| fields(e).2).max().unwrap_or(0);
+            let w0 = if all_raw && rng.chance(1, 2) { 0 } else { 1 + rng.usize(2) };
+            let w1 = (byte_width(max1) + rng.usize(3)).min(8);
+            let w2 = (byte_width(max2) + rng.usize(3)).min(8);
+            let mut d = vec![];
+            for (_, es) in &subs {
+                for e in es {
+                    let (t, a, b) = fields(e);
+                    d.extend_from_slice(&be(t, w0));
+                    d.extend_from_slice(&be(a, w1));
+                    d.extend_from_slice(&be(b, w2));
+                }
+            }
+            if rng.chance(1, 4) { d.extend_from_slice(&rng.bytes(3)); } // trailing bytes are legal
+            st.count(&format!("w0={}", w0));
+            w = vec![w0 as u64, w1 as u64, w2 as u64];
+            index = subs.iter().map(|s| (s.0, s.1.len() as u64)).collect();
+            data = d;
+        } else {
+            let nw = *rng.pick(&[3usize, 3, 3, 3, 2, 4]);
+            w = (0..nw).map(|_| *rng.pick(&[0u64, 1, 1, 2, 2, 3, 4, 8, 9])).collect();
+            let nsub = rng.usize(3);
+            index = (0..nsub).map(|_| (rng.below(size + 2), rng.below(6))).collect();
+            let len = rng.usize(40);
+            data = (0..len).map(|_| if rng.chance(1, 2) { rng.below(4) as u8 } else { rng.byte() }).collect();
+        }
+        let bytes = xrefstm_file(size, &w, &index, &data);
+        let r = catch_unwind(AssertUnwindSafe(|| {
+            let opts = if allow { ParseOptions::tolerant() } else { ParseOptions::strict() };
+            let storage = match Storage::with_cache(bytes.clone(), opts, NoCache, NoCache, NoLog) { Ok(s) => s, Err(_) => return "err".to_string() };
+            let resolver = storage.resolver();
+            match bytes.read_xref_table_and_trailer(0, &resolver) {
+                Ok((t, _)) => format!("ok {}", (0..t.len()).map(|i| show_entry(&t.get(i as u64).unwrap())).collect::<Vec<_>>().join(",")),
+                Err(_) => "err".to_string(),
+            }
+        }));
+        imps.push(r.unwrap_or_else(|_| "panic".into()));
+        let wtxt: Vec<String> = w.iter().map(|x| x.to_string()).collect();
+        let itxt: Vec<String> = index.iter().map(|(a, b)| format!("{}:{}", a, b)).collect();
+        reqs.push(format!("c02.xrefstm {} {} {} {} {}", allow as u8, size, wtxt.join(","), if itxt.is_empty() { "-".to_string() } else { itxt.join(",") }, crate::driver::hex(&data)));
+    }
+    let resp = driver.ask(&reqs);
+    for ((rq, m), i) in reqs.iter().zip(resp.iter()).zip(imps.iter()) {
+        st.count(&format!("outcome={}", m.split(' ').next().unwrap_or("")));
+        st.case(rq, m, i, !rq.ends_with(" -"));
+    }
+    st
+}
+
 pub fn run(driver: &Driver, seed: u64, thorough: bool, replay: Option<&serde_json::Value>) -> Report {
     let mut rep = Report::new("C02");
     if let Some(r) = replay {
@@ -406,6 +503,8 @@ pub fn run(driver: &Driver, seed: u64, thorough: bool, replay: Option<&serde_jso
     rep.streams.push(exhaustive(driver, if thorough { 3 } else { 2 }));
     rep.streams.push(random_merge(driver, seed, if thorough { 200_000 } else { 4000 }, false));
     rep.streams.push(random_merge(driver, seed, if thorough { 20_000 } else { 500 }, true));
+    rep.streams.push(xrefstm(driver, seed, if thorough { 100_000 } else { 2000 }, false));
+    rep.streams.push(xrefstm(driver, seed, if thorough { 100_000 } else { 2000 }, true));
     let (st, or) = file_level(driver, seed, 0, if thorough { 50_000 } else { 1500 });
     rep.streams.push(st);
     rep.oracles.push(or);
